@@ -25,11 +25,12 @@ class BNF:
     `render` maps a terminal symbol to (item, [Term definitions])."""
 
     def __init__(self, k, sigma, A, L, render='lit', ignore=(), extra_terms=(), nt_names=None, mods=None):
-        self.k, self.sigma, self.L = k, tuple(sigma), L
+        self.k, self.sigma = k, tuple(sigma)
+        self.L = tuple(L) if isinstance(L, (tuple, list)) else (L,) * k
         self.A = tuple(A) if isinstance(A, (tuple, list)) else (A,) * k
         self.nts = tuple(nt_names or NT_NAMES[:k])
         self.nsyms = k + len(self.sigma)
-        self.sets = [_altsets(self.nsyms, a, L) for a in self.A]
+        self.sets = [_altsets(self.nsyms, a, l) for a, l in zip(self.A, self.L)]
         self.size = 1
         for s in self.sets:
             self.size *= len(s)
